@@ -133,7 +133,17 @@ func genContainer(r *proto.Rand) string {
 	if r.Intn(4) == 0 {
 		body = "[foo]:" + sd(r)
 	}
-	switch r.Intn(5) {
+	switch r.Intn(8) {
+	case 5, 6: // a fenced block that begins in a container; the container may end before the block does
+		return genFenceDocAt(r, r.Intn(3))
+	case 7: // a quoted line indented like code after a quoted paragraph line (which it continues) or not
+		q := pick(r, []string{">", "> ", ">", " >"})
+		first := q + pick(r, []string{"`", "a `", "a", "text", "``", "", "# h", "- i", "`c`", "[x"})
+		second := pick(r, []string{q, q, q, "", "  "}) + pick(r, []string{"    ", "     ", "\t", "      ", "   "}) + body + pick(r, []string{"", "`", "`", " x", "``"})
+		if r.Intn(4) == 0 {
+			return first + "\n" + q + "\n" + second
+		}
+		return first + "\n" + second
 	case 0:
 		return marker + inner + body
 	case 1:
